@@ -509,9 +509,9 @@ func scalarShard(c *core.Ctx, sh int, r *rand.Rand) {
 	}
 	for _, ln := range lines {
 		var o struct {
-			I                                   int
+			I                                     int
 			Skip, YAML, Err, Before, After, Panic string
-			OK                                  bool
+			OK                                    bool
 		}
 		if json.Unmarshal(ln, &o) != nil || o.I >= len(reqs) {
 			continue
